@@ -63,6 +63,7 @@ GAP = 2  # seconds between warm-up and read when warm == "gap": beyond HashClien
 
 MENU = {k: list(v) for k, v in simnet.MENU_CONN.items()}
 MENU["reply"] = MENU["reply"] + ["odd_cas"]  # an intact item whose cas field is not a number
+MENU["getaddrinfo"] = ["gaierror"]  # the resolver is part of the network: a name that does not resolve just now
 
 
 def run_case(ch, stack, serde, warm, shape, preload=True, probe=True):
@@ -82,7 +83,9 @@ def run_case(ch, stack, serde, warm, shape, preload=True, probe=True):
     for i, op in enumerate(seq, 1):
         net.call = i
         if warm == "gap" and i == 2:
-            net.clock.advance(IDLE + 1 if stack == "pooled_idle" else GAP)
+            # hash1d: the warm-up failure evicted the only server; the read comes after dead_timeout (60 s), when it is
+            # taken back - whatever it answers at that moment
+            net.clock.advance(IDLE + 1 if stack == "pooled_idle" else 61 if stack == "hash1d" else GAP)
         try:
             rec.append(("ret", op.call(obj)))
         except Exception as e:
@@ -158,6 +161,7 @@ def network_failed_before(net, ncall):
             reason = e[5] if e[2] == "connect_fail" else e[4]
             if reason != "eintr":
                 out.add(net.socks[e[3]].addr)
+    out |= {a for (c, a, l) in net.hard if c < ncall and l == "gaierror"}
     return out
 
 
@@ -178,7 +182,7 @@ def _jobs(tier):
     for stack in STACKS:
         for serde in (False, True):
             for warm in (False, True, "gap"):
-                if warm == "gap" and (stack == "hash1d" or not (stack.startswith("hash") or stack == "pooled_idle")):
+                if warm == "gap" and not (stack.startswith("hash") or stack == "pooled_idle"):
                     continue
                 if stack == "pooled_idle" and warm != "gap":
                     continue
@@ -280,7 +284,12 @@ def _down_worker(job, chk):
                 net.clock.advance(gaps[i - 1])
             net.call = i + 1
             try:
-                results.append(("ret", shape.call(obj)))
+                r = shape.call(obj)
+                results.append(("ret", dict(r) if type(r) is dict else r))
+                if type(r) is dict:
+                    # the result belongs to the caller, who fills the misses in (cache-aside): later reads are unaffected
+                    for k in keys_of(shape):
+                        r[k] = b"filled in by the caller"
             except Exception as e:  # noqa
                 results.append(("exc", e))
         chk.add()
